@@ -36,6 +36,7 @@ def known_class(s):
     if "\\u" in s and "'" in s: return "K5-unicode-escape-in-char"
     if re.search(r"0b[01_]{129,}", s): return "K6-long-binary"
     if "return!" in s: return "K7-return-bang"
+    if re.search(r"\\u\{[0-9a-fA-F]{7,}\}", s): return "K8-long-unicode-escape"
     return None
 
 
@@ -110,6 +111,23 @@ def run(tier):
     for n in range(1, maxlen + 1):
         strings += ["".join(t) for t in itertools.product(ALPHABET, repeat=n)]
     nex = len(strings)
+    # boundary lexemes that no short string can spell
+    boundary = []
+    for e in (7, 8, 15, 16, 31, 32, 63, 64, 127, 128, 129):
+        for d in (-2, -1, 0, 1, 2, 3, 4):
+            v = (1 << e) + d
+            if v < 0: continue
+            for sp in (str(v), "0x%x" % v, "0x%X" % v, "0b" + bin(v)[2:]):
+                boundary.append(sp)
+                boundary.append(sp + rng.choice(["u8", "i8", "u128", "i128", "usize", "u64", "i32", "u7", "x"]))
+                if len(sp) > 6: boundary.append(sp[:4] + "_" + sp[4:-3] + "_" + sp[-3:])
+    boundary += ["9" * n for n in (38, 39, 40, 60)] + ["1" + "0" * n for n in (37, 38, 39, 40)] + ["0x" + "f" * n for n in (31, 32, 33)] + ["0b" + "1" * n for n in (127, 128)]
+    for n in range(0, 9):
+        hexs = "10FFFF00"[:n] if n else ""
+        boundary += ['"\\u{%s}"' % hexs, "'\\u{%s}'" % hexs, '"x\\u{%s}y"' % ("0" * max(0, n - 2) + "41")[:max(n, 0)]]
+    boundary += ['"\\u{10FFFF}"', '"\\u{110000}"', '"\\u{D7FF}"', '"\\u{D800}"', '"\\u{DFFF}"', '"\\u{E000}"', '"\\u{01F600}"', '"\\u{0000041}"', '"\\u{20ac}"', '"\\u{20AC}"',
+                 '"\\xFF"', '"\\xff"', '"\\x7"', '"\\x"', "'\\x41'", "'\\x4'", "'\\0'", '"\\0\\n\\r\\t\\\\\\\'\\""', "x" * 300, "_" * 40, "a1_" * 30 + "!", "word8", "word16", "word32", "word64", "word128", "word256", "word", "u128", "u256", "i7", "usize", "isize"]
+    strings += [b for b in boundary] + ["var x = %s;" % b for b in boundary[::3]]
     seqs = [random_sequence(rng) for _ in range(3000 if tier == "quick" else 100000)]
     cases = [("e%d" % i, s) for i, s in enumerate(strings)] + [("q%d" % i, t[0]) for i, t in enumerate(seqs)]
     impl = C.run_harness("lex", cases, ck.work + "/lex", timeout=3000)
@@ -185,7 +203,7 @@ def run(tier):
         ck.violation("tie-broken:proof", "Props/C14.v no longer checks", getattr(ck, "proof_output", "")[-2000:])
     ck.coverage.update(
         evaluations=len(cases) + len(bcases), distinct_nontrivial=len(distinct), exhaustive=True, exhaustive_part=nex,
-        rule="all strings of length <= %d over the 48-character alphabet %r (exhaustive), both real lexers vs both extracted models (token kinds, values, suffix types, spans, line, column, error codes) and against each other (kinds, values, codes; spans on ASCII); generated token sequences in random spellings and layouts against the generator's own token list (independent reference) with exact spans and line numbers; arbitrary bytes for the second generation vs its model; distinct = distinct error-bearing token lines" % (maxlen, "".join(ALPHABET)),
+        rule="all strings of length <= %d over the 48-character alphabet %r (exhaustive) plus boundary lexemes (integers around 2^7..2^129 in every base, with suffixes and underscores; 38-60 digit decimals; \\u{} escapes of 0-8 digits and at the surrogate and 0x10FFFF boundaries; \\x forms; very long identifiers), both real lexers vs both extracted models (token kinds, values, suffix types, spans, line, column, error codes) and against each other (kinds, values, codes; spans on ASCII); generated token sequences in random spellings and layouts against the generator's own token list (independent reference) with exact spans and line numbers; arbitrary bytes for the second generation vs its model; distinct = distinct error-bearing token lines" % (maxlen, "".join(ALPHABET)),
         stats=dict(stats), problems=bad, byte_problems=bbad,
         samples=[dict(input=cases[nex + 1][1], first=impl.get(cases[nex + 1][0], ["?"])[0][:300])])
     return ck.finish()
